@@ -80,7 +80,9 @@ def gen_case(rnd, prop, tier):
         c['n'] = n
         c['penalty'] = rnd.random() < 0.5
         c['wl_seed'] = rnd.getrandbits(32)
+        c['extra_answered'] = rnd.choice([0, 0, 1, 2])
     if kind == 'scale':
+        c['toggle'] = rnd.random() < 0.4       # the adjacency flag takes its final value after construction
         c['l'] = rnd.choice([1.0, 2.0, 0.5, 3.7])
         c['delta'] = rnd.choice([1e-9, 1e-6, 1e-3])
     if kind == 'noise':
@@ -104,6 +106,7 @@ def get_mech(bounded, rng):
         _mech[bounded] = M.Mechanism(1.0, 1e-6, bounded, prng=rng)
     m = _mech[bounded]
     m.prng = rng
+    m.bounded = bounded
     return m
 
 
@@ -149,7 +152,12 @@ def run_case(case, prop):
     try:
         with np.errstate(all='ignore'):
             if kind in ('mech-array', 'mech-dict', 'mech-dict-base', 'scale', 'noise'):
-                mech = get_mech(case['bounded'], rng)
+                if kind == 'scale' and case.get('toggle'):
+                    mech = get_mech(not case['bounded'], rng)
+                    mech.bounded = case['bounded']
+                    faults['bounded-set-after-construction'] = 1
+                else:
+                    mech = get_mech(case['bounded'], rng)
             if kind == 'mech-array':
                 arr = q.copy()
                 for k in range(case['calls']):
@@ -285,9 +293,12 @@ def run_mwem(case, rng, eps, viol, probes, tagbase):
     pairs = [p for p in itertools.combinations(attrs, 2)]
     r.shuffle(pairs)
     workload = pairs[:case['n']]
+    answered = pairs[:min(len(pairs), case['n'] + case.get('extra_answered', 0))]     # mwem_pgm answers the whole workload, candidates may be a strict subset
     model = mbi.GraphicalModel(dom, workload[:2], total=50.0)
     model.potentials = mbi.CliqueVector({cl: mbi.Factor(dom.project(cl), np.array([r.gauss(0, 1) for _ in range(dom.size(cl))])) for cl in model.cliques})
-    answers = {cl: np.array([float(r.randint(0, 30)) for _ in range(dom.size(cl))]) for cl in workload}
+    answers = {cl: np.array([float(r.randint(0, 30)) for _ in range(dom.size(cl))]) for cl in answered}
+    if len(answered) > len(workload):
+        probes['candidates-strict-subset-of-answered-workload'] = 1
     bounded = case['bounded']
     for k in range(case['calls']):
         keep = {cl: a.copy() for cl, a in answers.items()}
